@@ -279,6 +279,19 @@ func main() {
 	}
 	stWf.Labels = wfLabels
 	ctx.RunStream(stWf, wfLines, wfImpl)
+	// C08: the static hypothesis of vm_total_wf_partial (Props/C08VM.lean) — the bytecode checker
+	// safeCheck (data-stack heights, frames, fork discipline) — on every real program: the code
+	// with both whole-code passes off, with the peephole pass off, and fully optimised
+	stSafe := ctx.NewStream("safe", "Gojq.SafeVM.safeCheckView (Model/SafeVM.lean), proved equal to the hypothesis safeCheck of vm_total_wf_partial (Props/C08VM.lean)",
+		"every instruction list of the codeops/tailrec streams (no pass, tail-call pass only, both passes): the implementation's answer is the constant `safe`; distinct = 1 when the checker accepts all of them")
+	var safeLines, safeImpl, safeLabels []string
+	for i := range codeLines {
+		safeLines = append(safeLines, tailLines[i], codeLines[i], codeImpl[i])
+		safeImpl = append(safeImpl, "safe", "safe", "safe")
+		safeLabels = append(safeLabels, codeLabels[i]+"  (no whole-code pass)", codeLabels[i]+"  (before the peephole pass)", codeLabels[i]+"  (fully optimised)")
+	}
+	stSafe.Labels = safeLabels
+	ctx.RunStream(stSafe, safeLines, safeImpl)
 	// a pass no longer does what its model does: look for an OBSERVABLE difference around the
 	// programs on which they differ (a misplaced stack slot only shows in some contexts)
 	var suspects []string
